@@ -310,6 +310,7 @@ class Contract:
         bounded=False,
         kwargs=None,
         ghost_inst=None,
+        call_only=False,
     ):
         self.target = target
         self.short = target.split(":", 1)[1] if ":" in target else target
@@ -339,6 +340,7 @@ class Contract:
         self.kwargs = kwargs or {}
         # {callee short name: {ghost parameter of the callee: spec expression over the caller's state}}
         self.ghost_inst = ghost_inst or {}
+        self.call_only = call_only  # assumed contract: used at call sites, not verified here
 
     def inlines(self, q):
         if q in self.inline:
@@ -371,10 +373,15 @@ class Registry:
         ).split():
             setattr(self, h, None)
 
-    def add(self, contract):
-        if contract.target in self.contracts:
-            raise PyvcError(f"duplicate contract for {contract.target}")
-        self.contracts[contract.target] = contract
+    def add(self, contract, key=None):
+        """Register a contract.  `key` distinguishes several contracts on the same function (one per
+        input class); only the un-keyed contract is used at call sites."""
+        k = key or contract.target
+        if k in self.contracts:
+            raise PyvcError(f"duplicate contract for {k}")
+        if key is not None:
+            contract.short = contract.short + key[len(contract.target):]
+        self.contracts[k] = contract
         return contract
 
     def spec(self, fn=None, name=None, needs_interp=False):
@@ -401,6 +408,7 @@ class Registry:
     def make_inputs(self, I, contract):
         eng = I.eng
         env_vars = {}
+        I.ghost_current = env_vars
         for name, typ in contract.params:
             v = typ.fresh(eng, name, I) if isinstance(typ, Type) else typ
             env_vars[name] = v
